@@ -50,6 +50,9 @@ type tkey struct {
 	name string
 	k    *kv.Key // reference / standard library form
 	alt  *kv.Key // a second key of the same type
+	// class marks a boundary value-class key (detkeys.Classes): same treatment, lighter
+	// repetition in the quick tier
+	class bool
 }
 
 // raw is the value handed to ssh.MarshalPrivateKey.
@@ -255,7 +258,8 @@ func sameRefKey(a, b *kv.Key) bool {
 }
 
 func run(c *vf.Ctx) {
-	c.Rule("A: grid key{rsa1024,rsa2048[,3072,4096],p256,p384,p521,ed25519(value and pointer)} x passphrase{none,'x',40 bytes} x comment{'',text, lengths 0..7 for every padding length}: " +
+	c.Rule("keys = standard {rsa1024,rsa2048[,3072,4096],p256,p384,p521,ed25519} + 39 boundary value classes (per curve: X / Y / both one byte short, X / Y two bytes short, scalar with 1 / 2 leading zero bytes, scalar top bit set / clear; ed25519 seed with 1 / 4 / 32 zero bytes, public key starting 00 / 0000; rsa n and q without sign pad (1039 bit), d two bytes short, iqmp two bytes short, d and iqmp top bit set / clear); " +
+		"A: grid key{all of the above; ed25519 also as pointer} x passphrase{none,'x',40 bytes} x comment{'',text, lengths 0..7 for every padding length}: " +
 		"Marshal -> reference decode (byte-for-byte for unencrypted) -> ParseRaw*/Parse* equal key, signer, 4 wrong passphrases, missing passphrase, ssh-keygen -y/-p; " +
 		"B: files of the reference encoder (unencrypted x every padding length; encrypted: cipher{aes256-ctr,aes256-cbc} x rounds{1,16[,2,3,64,2048]} x salt length x comment) and of ssh-keygen (type x {plain,'x',40 bytes,aes256-cbc,rounds 1,3[,64]}) parse to the reference-decoded key; " +
 		"C2: every non-empty subset of the redundant copies of the key {outer blob, public field(s), ed25519 public half, seed/scalar/d,p,q,iqmp} replaced by a second key's values, unencrypted and aes256-ctr; " +
@@ -267,15 +271,37 @@ func run(c *vf.Ctx) {
 
 	seed := fmt.Sprint(c.Seed)
 	keys := []tkey{
-		{"rsa1024", rsaKey(1024, seed+"a"), rsaKey(1024, seed+"b")},
-		{"rsa2048", rsaKey(2048, seed+"a"), nil},
-		{"p256", ecKey(elliptic.P256(), seed+"a"), ecKey(elliptic.P256(), seed+"b")},
-		{"p384", ecKey(elliptic.P384(), seed+"a"), ecKey(elliptic.P384(), seed+"b")},
-		{"p521", ecKey(elliptic.P521(), seed+"a"), ecKey(elliptic.P521(), seed+"b")},
-		{"ed25519", edKey(seed + "a"), edKey(seed + "b")},
+		{"rsa1024", rsaKey(1024, seed+"a"), rsaKey(1024, seed+"b"), false},
+		{"rsa2048", rsaKey(2048, seed+"a"), nil, false},
+		{"p256", ecKey(elliptic.P256(), seed+"a"), ecKey(elliptic.P256(), seed+"b"), false},
+		{"p384", ecKey(elliptic.P384(), seed+"a"), ecKey(elliptic.P384(), seed+"b"), false},
+		{"p521", ecKey(elliptic.P521(), seed+"a"), ecKey(elliptic.P521(), seed+"b"), false},
+		{"ed25519", edKey(seed + "a"), edKey(seed + "b"), false},
 	}
 	if c.Thorough {
-		keys = append(keys, tkey{"rsa3072", rsaKey(3072, seed+"a"), nil}, tkey{"rsa4096", rsaKey(4096, seed+"a"), nil})
+		keys = append(keys, tkey{"rsa3072", rsaKey(3072, seed+"a"), nil, false}, tkey{"rsa4096", rsaKey(4096, seed+"a"), nil, false})
+	}
+	// boundary value classes: coordinates / scalars / seeds / public keys with leading zero
+	// bytes, RSA components with and without the mpint sign-pad byte or shorter than usual
+	altOf := map[string]*kv.Key{}
+	for _, k := range keys {
+		if k.alt != nil {
+			altOf[k.k.Type] = k.alt
+		}
+	}
+	classKeys := detkeys.Classes(seed)
+	c.Set("value_class_keys", len(classKeys))
+	for _, ck := range classKeys {
+		var k *kv.Key
+		switch {
+		case ck.RSA != nil:
+			k = &kv.Key{Type: sr.RSA, RSA: ck.RSA}
+		case ck.ECDSA != nil:
+			k = &kv.Key{Type: sr.FromECDSA(&ck.ECDSA.PublicKey).Type, ECDSA: ck.ECDSA}
+		default:
+			k = &kv.Key{Type: sr.ED25519, Ed25519: ck.Ed25519}
+		}
+		keys = append(keys, tkey{ck.Name, k, altOf[k.Type], true})
 	}
 
 	var g *keygen
@@ -328,6 +354,18 @@ func partA(c *vf.Ctx, keys []tkey, g *keygen) {
 	var cases []caseA
 	for _, k := range keys {
 		for _, p := range passes {
+			if k.class && !c.Thorough {
+				// value-class keys, quick: plain with three comments, 'x' with one comment
+				switch p.n {
+				case "none":
+					for _, cm := range []string{"", "user@host with spaces", "12345"} {
+						cases = append(cases, caseA{k, p.p, p.n, cm, false})
+					}
+				case "x":
+					cases = append(cases, caseA{k, p.p, p.n, "user@host with spaces", false})
+				}
+				continue
+			}
 			comments := []string{"", "user@host with spaces"}
 			if p.p == nil || c.Thorough {
 				comments = append(comments, "h\u00e9llo w\u00f6rld \u2713 \"quoted\"")
@@ -478,7 +516,9 @@ func oneA(c *vf.Ctx, t caseA, g *keygen, idx int) {
 		if len(t.pass) > 1 {
 			wrong = append(wrong, t.pass[:len(t.pass)-1])
 		}
-		if !c.Thorough {
+		if t.key.class {
+			wrong = wrong[:1]
+		} else if !c.Thorough {
 			wrong = append(wrong[:2], wrong[3:]...) // quick: drop one of the variants
 		} else if len(t.comment) >= 2 && len(t.comment) <= 15 {
 			wrong = wrong[:1] // padding-length sweep: one wrong passphrase is enough
@@ -527,7 +567,7 @@ func oneA(c *vf.Ctx, t caseA, g *keygen, idx int) {
 				c.Violation("ssh-keygen -y prints another comment for a file written by MarshalPrivateKey", det(comment))
 			}
 		}
-		if t.pass != nil {
+		if t.pass != nil && !(t.key.class && !c.Thorough) {
 			if c.Thorough || t.pname == "x" {
 				if _, _, err := g.pubOf(path, "definitely wrong"); err == nil && !isDown(c, err) {
 					c.Violation("ssh-keygen opens the encrypted file with a wrong passphrase", det(nil))
@@ -760,7 +800,7 @@ func partB1enc(c *vf.Ctx, keys []tkey) {
 	var cases []cs
 	pass40 := []byte(base64.StdEncoding.EncodeToString(c.Bytes("refpass40", 0, 30)))
 	for _, k := range keys {
-		if k.k.Type == sr.RSA && k.name != "rsa1024" && !c.Thorough {
+		if k.k.Type == sr.RSA && k.name != "rsa1024" && !k.class && !c.Thorough {
 			continue
 		}
 		for _, cipher := range []string{"aes256-ctr", "aes256-cbc"} {
@@ -777,6 +817,9 @@ func partB1enc(c *vf.Ctx, keys []tkey) {
 			}
 			for _, r := range rounds {
 				if !c.Thorough && r == 16 && k.name != "ed25519" && k.name != "p256" && k.name != "rsa1024" {
+					continue
+				}
+				if k.class && r != 1 {
 					continue
 				}
 				for _, sl := range salts {
@@ -1040,6 +1083,9 @@ func partC(c *vf.Ctx, keys []tkey, g *keygen) {
 			}
 		}
 		for cl := 0; cl <= 7; cl++ {
+			if t.class && cl > 0 {
+				break // value-class keys: the padding sweep of the standard keys is not repeated
+			}
 			comment := strings.Repeat("z", cl)
 			_, s := kv.NewFile(t.k, comment, 1)
 			for _, ft := range faultsFor(t, other, len(s.Pad)) {
@@ -1151,7 +1197,7 @@ func partC(c *vf.Ctx, keys []tkey, g *keygen) {
 			c.Sample(map[string]any{"part": "C", "key": cs.t.name, "fault": cs.ft.name, "go": err.Error(), "reference": refReason})
 		}
 		// OpenSSH's decision on the same bytes (trace conformance only, never deciding)
-		if g.ok() && len(cs.comment) == 0 && c.Thorough {
+		if g.ok() && len(cs.comment) == 0 && c.Thorough && !cs.t.class {
 			path := g.write(fmt.Sprintf("c%d", i), pemText)
 			_, _, kerr := g.pubOf(path, "")
 			os.Remove(path)
